@@ -5,10 +5,9 @@ package main
 //     statement of the loop body (true: every rule starts from the zero value) or once in front of the loop (false:
 //     what one rule captured is carried into the next). The Coq model (CommentSpec.run_loop) takes this flag as a
 //     parameter, so the executed model follows the source; the theorem C12_match_data_fresh needs it to be true.
-//   * gen_c12_facts: statement facts of handleCommentMatch (the filter sees this rule's match
-//     data; every field of the reused ReportData is assigned unconditionally), run (every comment of every group),
-//     loadCommentRule (pattern and flag come from the same source string) and regexpHasCaptureGroups (nothing but the
-//     parse and the walk that Regex/Capture.v models).
+//   * gen_c12_facts: statement facts of handleMatch (every field of the reused ReportData is assigned unconditionally), run
+//     (every comment of every group) and regexpHasCaptureGroups (nothing but the parse and the walk that Regex/Capture.v
+//     models). handleCommentMatch, runCommentRules and loadCommentRule are TRANSLATED (c12handler.go, c12loop.go, c12load.go).
 // A shape that is not recognised yields false (the obligation then breaks); a missing function is an error.
 
 import (
@@ -75,6 +74,7 @@ func genC12(repo string, args []string) (string, error) {
 	run := c03FindFunc(rf, "run")
 	lc := c03FindFunc(lf, "loadCommentRule")
 	hg := c03FindFunc(uf, "regexpHasCaptureGroups")
+	_, _ = hc, lc
 	for name, fd := range map[string]*ast.FuncDecl{"runCommentRules": rc, "handleCommentMatch": hc, "handleMatch": hm, "run": run, "loadCommentRule": lc, "regexpHasCaptureGroups": hg} {
 		if fd == nil {
 			return "", fmt.Errorf("%s not found", name)
@@ -154,40 +154,7 @@ func genC12(repo string, args []string) (string, error) {
 
 	has := func(set map[string]int, text string, n int) bool { return set[normText(text)] == n }
 
-	// ---- handleCommentMatch / handleMatch
-	hcs := c03StmtSet(fset, hc)
-	filterFirst := false
-	// the first statement that is not a plain reset of a field of the reused report data
-	first := 0
-	for first < len(hc.Body.List)-1 {
-		as, ok := hc.Body.List[first].(*ast.AssignStmt)
-		if !ok || len(as.Lhs) != 1 || len(as.Rhs) != 1 || !strings.HasPrefix(exprString(fset, as.Lhs[0]), "rr.reportData.") || exprString(fset, as.Rhs[0]) != "nil" {
-			break
-		}
-		first++
-	}
-	if is, ok := hc.Body.List[first].(*ast.IfStmt); ok && exprString(fset, is.Cond) == "rule.base.filter.fn != nil" && len(is.Body.List) >= 2 {
-		filterFirst = normStmt(fset, is.Body.List[0]) == normText("rr.filterParams.match = m") &&
-			normStmt(fset, is.Body.List[1]) == normText("filterResult := rule.base.filter.fn(&rr.filterParams)")
-	}
-	add("handleCommentMatch: the filter runs first and sees this rule's match data", filterFirst && has(hcs, "rr.filterParams.match = m", 1))
-	rejectOK := false
-	ast.Inspect(hc.Body, func(n ast.Node) bool {
-		if is, ok := n.(*ast.IfStmt); ok && exprString(fset, is.Cond) == "!filterResult.Matched()" && len(is.Body.List) > 0 {
-			rejectOK = normStmt(fset, is.Body.List[len(is.Body.List)-1]) == "return false"
-		}
-		return true
-	})
-	nRet := 0
-	ast.Inspect(hc.Body, func(n ast.Node) bool {
-		if _, ok := n.(*ast.ReturnStmt); ok {
-			nRet++
-		}
-		return true
-	})
-	nh := len(hc.Body.List)
-	add("handleCommentMatch: a rejecting filter returns false, everything else reports and returns true",
-		rejectOK && nRet == 2 && nh >= 2 && normStmt(fset, hc.Body.List[nh-1]) == "return true" && normStmt(fset, hc.Body.List[nh-2]) == normText("rr.ctx.Report(&rr.reportData)"))
+	// ---- handleMatch (handleCommentMatch is translated: c12handler.go)
 	// every field of the reused rr.reportData that the handler sets is assigned exactly once, unconditionally (as a
 	// statement of the function body), before the Report call -- nothing of an earlier report can survive
 	reportFields := func(fd *ast.FuncDecl, fields []string) bool {
@@ -226,38 +193,12 @@ func genC12(repo string, args []string) (string, error) {
 		}
 		return true
 	}
-	add("handleCommentMatch: RuleInfo, Node, Message, Suggestion and Func of the reused report are all assigned unconditionally before Report",
-		reportFields(hc, []string{"RuleInfo", "Node", "Message", "Suggestion", "Func"}))
 	add("handleMatch: RuleInfo, Node, Message, Suggestion and Func of the reused report are all assigned unconditionally before Report",
 		reportFields(hm, []string{"RuleInfo", "Node", "Message", "Suggestion", "Func"}))
-	add("handleCommentMatch: a Suggest template always yields a Suggestion of the reported node",
-		has(hcs, "if rule.base.suggestion != \"\" {suggestion = &Suggestion{Replacement:[]byte(rr.renderMessage(rule.base.suggestion, m, false)), From:node.Pos(), To:node.End()}}", 1) &&
-			has(hcs, "var suggestion *Suggestion", 1))
-
 	// ---- run: every comment of every comment group
 	rs := c03StmtSet(fset, run)
 	add("run: the comment rules see every comment of every comment group of the file",
 		has(rs, "if len(rr.rules.universal.commentRules) != 0 {for _, commentGroup := range f.Comments {for _, comment := range commentGroup.List {rr.runCommentRules(comment)}}}", 1))
-
-	// ---- loadCommentRule
-	lcs := c03StmtSet(fset, lc)
-	litOK := false
-	ast.Inspect(lc.Body, func(n ast.Node) bool {
-		cl, ok := n.(*ast.CompositeLit)
-		if !ok || exprString(fset, cl.Type) != "goCommentRule" {
-			return true
-		}
-		fields := map[string]string{}
-		for _, e := range cl.Elts {
-			if kv, ok := e.(*ast.KeyValueExpr); ok {
-				fields[exprString(fset, kv.Key)] = exprString(fset, kv.Value)
-			}
-		}
-		litOK = len(fields) == 3 && fields["pat"] == "pat" && fields["captureGroups"] == "regexpHasCaptureGroups(src)" && fields["base"] != ""
-		return true
-	})
-	add("loadCommentRule: the regexp and the capture-group flag come from the same pattern source",
-		litOK && has(lcs, "pat, err := regexp.Compile(src)", 1) && has(lcs, "dst.commentRules = append(dst.commentRules, result)", 1))
 
 	// ---- regexpHasCaptureGroups: parse, then the walk -- and nothing else (no textual shortcut in front)
 	want := []string{
